@@ -262,6 +262,7 @@ func checkMain(args []string) {
 		die2("unknown property %q", *propID)
 	}
 	start := time.Now()
+	genTier = *tier
 	seed := envSeed()
 	jobs := envInt("VERIF_JOBS", 16)
 	self, err := os.Executable()
